@@ -38,7 +38,7 @@ CHECKS = {
             "assignment). Strings are not modelled as shared (the statement does not say they are). Functions returning one of their "
             "arguments (identity, if_null, min, max) are drift.",
             "DESIGN.md 4 C16"),
-    "C17": (["DateOps.tla", "Date.tla", "DateArith.tla", "Date_Trace.tla"],
+    "C17": (["DateOps.tla", "Date.tla", "DateArith.tla", "Date_Trace.tla", "DateProc.tla"],
             "TLA+ calendar machine (TickDay / TickMonth / TickYear with n' = n + 1) with closed-form day number, round trip, leap "
             "and month-length invariants, and an arithmetic machine for the (d + n) - n laws, model-checked by TLC; exported month / "
             "year / arithmetic records replayed on to_oa_date / to_date / int(date) / date(n) / date +- n; TLC trace validation of "
@@ -178,7 +178,7 @@ CHECKS = {
             "Trusted: TLC, the audit-hook/stat-wrapper instrumentation as the definition of 'touches the OS'; directories named by "
             "checkerlang_module_path count as module source directories; get_env and os.getcwd are drift.",
             "DESIGN.md 4 C09"),
-    "C13": (["FormsOps.tla", "Forms.tla", "FormsGraphOps.tla", "FormsGraph.tla", "Natives_Trace.tla"],
+    "C13": (["FormsOps.tla", "Forms.tla", "FormsGraphOps.tla", "FormsGraph.tla", "Natives_Trace.tla", "FormsCallOps.tla", "FormsCall.tla"],
             "TLA+ table of 158 syntactic forms with value/error rules over a 24-value pool (TLC: NotStuck, exports the case list); "
             "every case and an arity <= 3 sweep of all 601 live function sites executed under a watchdog; TLC trace validation in "
             "which host exceptions, timeouts, non-Value error values and uncatchable errors are accepted by no action",
@@ -298,6 +298,8 @@ ADDENDA = {
 }
 
 ADDENDA3 = {
+    "C13": " Round 3: FormsCall.tla models positional / named / rest binding (every function is also called in the shapes its parameter list admits, 1 910 calls on a probe function compared with the model), 196 forms incl. guards reached on a later pass, processor-time bounds and two-point scaled re-runs (a stand-in run must end AND the result must grow).",
+    "C17": " Round 3: DateProc.tla - the life of one process over the whole date vocabulary under eight time zones with their daylight-saving rules (ZoneBlind, BystandersKeep, ArithMoves); ~3 000 real new processes per quick run, hazard instants, CPU-time watchdogs (a conversion that never returns is reported).",
     "C06": " Round 3: every non-integral double is an exact model value (neighbours one ulp apart), dates are instants with microseconds; ValEdit.tla edits an object whose hash was taken and compares it with fresh values; 34 program- and API-level answers to 'same value?' must agree.",
     "C07": " Round 3: the list forms of min / max (with key) as modelled scans in ValSort.tla, eleven enumeration sites each for sets and maps, dates below year 1000 and inside one second, composing characters, cmp functions returning any negative / positive int.",
     "C09": " Round 3: the argument family is part of the spec (CallShapes: every path-like argument in every position beside every companion), names the binder knows are found by trying, another interpreter constructed before / after (OthersChangeNothing), 2 400 module specs that name no module, the command-line front ends with --secure.",
